@@ -129,7 +129,8 @@ func (eng *Engine) verifyFunction(f *ssa.Function, ct *Contract) (res *FuncResul
 				e.bindResults(f.Signature, r.results)
 				conj = append(conj, Implies(r.st.pc, e.boolExpr(cl.expr)))
 			}
-			fc.oblige(nm, "post", cl.ids, True, And(conj...), cl, "postcondition: "+cl.text)
+			po := fc.oblige(nm, "post", cl.ids, True, And(conj...), cl, "postcondition: "+cl.text)
+			po.parts = conj
 			continue
 		}
 		g := env.boolExpr(cl.expr)
